@@ -140,8 +140,24 @@ def traits(repo):
     late = [a.lineno > checks[0].lineno for a in created]
     if late[0] != late[1]:
         raise T.TranslationError("Fitness.__init__: history lists created on different sides of check_log_likelihood")
+    # check_log_likelihood: is the stored best vector evaluated through the fitness call (figure of merit, history)
+    # or directly (instance_from_vector + the likelihood function)?
+    chk = T.find_function(tree, "Fitness.check_log_likelihood")
+    new_assign = T.assigns(chk, "log_likelihood_new")
+    if len(new_assign) != 1 or not isinstance(new_assign[0].value, ast.Call):
+        raise T.TranslationError("check_log_likelihood: log_likelihood_new is not assigned once from a call")
+    callee = T._dotted(new_assign[0].value.func)
+    if callee == "fitness":
+        via_call = True
+    elif callee in ("fitness.log_likelihood_function", "self.log_likelihood_function"):
+        via_call = False
+        inst = [n for n in ast.walk(chk) if isinstance(n, ast.Call) and T._dotted(n.func) == "self.model.instance_from_vector"]
+        if len(inst) != 1 or any(T._dotted(n.func) in ("fitness", "self") for n in ast.walk(chk) if isinstance(n, ast.Call)):
+            raise T.TranslationError("check_log_likelihood: direct evaluation not of the shape instance_from_vector + likelihood")
+    else:
+        raise T.TranslationError("check_log_likelihood: log_likelihood_new comes from %s" % callee)
     return {"impl_alias_params": alias, "impl_inplace_chi2": inplace, "impl_pyswarms_history": pshist,
-            "impl_ctor_history_late": late[0]}
+            "impl_ctor_history_late": late[0], "impl_ctor_via_call": via_call}
 
 
 def regenerate(repo=None):
@@ -335,6 +351,9 @@ def gen_script(rng, md):
     }
 
 
+CTOR_VIA_CALL = [False]     # set by run() from the regenerated traits
+
+
 def gen_case(rng, forced=None):
     forced = forced or {}
     ps = forced.get("ps", rng.random() < 0.3)
@@ -386,15 +405,17 @@ def gen_case(rng, forced=None):
                 o[2][0] = hx(0.0 if rng.random() < 0.6 else 1.5)
     case = {"ps": ps, "flags": fl, "resample": hx(resample), "container": container, "defaults": rng.random() < 0.5, "model": md,
             "script": script, "buffers": [[hx(x) for x in b] for b in buffers], "ops": ops}
-    if not ps and fl["like"] and rng.random() < forced.get("ctor_p", 0.2):
-        # constructed with the paths of a resumed fit: the stored best vector is one of the buffers and the stored
-        # figure of merit is what the property says it is (so the sanity check itself must pass)
+    if not ps and (fl["like"] or not CTOR_VIA_CALL[0]) and rng.random() < forced.get("ctor_p", 0.2):
+        # constructed with the paths of a resumed fit: the stored best vector is a successfully evaluating vector and the
+        # stored value is what the constructor compares with (the log likelihood; the figure of merit when the sanity
+        # evaluation goes through the fitness call), so the sanity check itself must pass
         for b in rng.sample(range(nbuf), nbuf):
             e = evaluate(case, buffers[b])
             if e[0] == "ok" and math.isfinite(e[1]):
                 # the stored best vector is an object of its own (owned by the paths): a buffer no operation touches
                 case["buffers"].append(list(case["buffers"][b]))
-                case["ctor"] = {"pbuf": nbuf, "old": hx(e[1] * -2.0 if fl["chi2"] else e[1])}
+                old_value = (e[1] * -2.0 if fl["chi2"] else e[1]) if CTOR_VIA_CALL[0] else e[1]
+                case["ctor"] = {"pbuf": nbuf, "old": hx(old_value)}
                 break
     return case
 
@@ -504,14 +525,8 @@ def expected(c, lp):
             f = f * -2.0
         return f, e[1]
 
-    if c.get("ctor"):
-        # the sanity evaluation inside the constructor is an evaluation like any other
-        b = c["ctor"]["pbuf"]
-        vec = list(heap[b])
-        f, ll = one(vec)
-        if ll is not None and fl["store"]:
-            hist.append(([hx(x) for x in vec], hx(ll)))
-            hist_src.append((-1, b))
+    # (the sanity evaluation inside the constructor of a resumed fit is not a proposal of the search: it
+    #  returns nothing to the search and is not part of the history)
     for t, op in enumerate(c["ops"]):
         if op[0] == "write":
             heap[op[1]] = [unhex(x) for x in op[2]]
@@ -558,10 +573,6 @@ def oracle(c, r, exp):
     want = exp["hist"]
     if len(hp) != len(hl):
         fails.append(("history lists have different lengths %d / %d" % (len(hp), len(hl)), []))
-    elif c.get("ctor") and c["flags"]["store"] and len(hp) == len(want) - 1 and hp == [w[0] for w in want[1:]] and \
-            hl == [w[1] for w in want[1:]]:
-        # only possible once the constructor no longer raises: the sanity evaluation itself is not in the history
-        fails.append(("history lacks the vector evaluated by the constructor's sanity check", []))
     elif len(hp) != len(want):
         cls = [CLS_PSHIST] if (c["ps"] and c["flags"]["store"] and len(hp) == 0) else []
         fails.append(("history has %d entries, %d vectors were successfully evaluated" % (len(hp), len(want)), cls))
@@ -653,12 +664,12 @@ def run(ctx):
         "value) over a generated model (1-5 priors of four families created out of path order, shared priors, constants, nested "
         "collections, assertions on the root or a component), a scripted likelihood of the instance (weighted sum; FitException / "
         "nan rules depending on the instance; float, numpy scalar or 0-d array return) and a sequence of 1-12 operations on caller "
-        "buffers (call, overwrite a buffer in place, pyswarms batch); a fifth of the likelihood-mode Fitness cases are constructed "
-        "with the paths of a resumed fit (sanity evaluation inside the constructor); all eight flag combinations are forced for both "
+        "buffers (call, overwrite a buffer in place, pyswarms batch); a fifth of the Fitness cases are constructed "
+        "with the paths of a resumed fit (sanity evaluation of a stored best vector inside the constructor); all eight flag combinations are forced for both "
         "interfaces before the random stream; the reproductions of the recorded findings (corpus/C04) run first; a case is non-trivial when at least one call evaluates successfully; distinct = distinct abstract case")
     ctx.trusted = [
         "Coq 8.16.1 kernel incl. vm_compute; primitive floats (PrimFloat, Uint63) are kernel primitives",
-        "harness/vcheck/pyexpr2coq.py + c04.py:traits regenerating coq/C04/Gen.v (leaf formulas and the four implementation traits) "
+        "harness/vcheck/pyexpr2coq.py + c04.py:traits regenerating coq/C04/Gen.v (leaf formulas and the five implementation traits) "
         "from /repo on every run, fail-closed",
         "correspondence harness c04.py / impl/c04_impl.py: abstraction of a composed model into (limits in id order, slots, assertions); "
         "the abstraction is cross-checked against priors_ordered_by_id / prior_count of the live model",
@@ -678,6 +689,7 @@ def run(ctx):
     try:
         infos = regenerate()
         tr = infos.pop("__traits__")
+        CTOR_VIA_CALL[0] = tr["impl_ctor_via_call"]
         ctx.translated = {k: {"source": v["source"], "line": v["line"]} for k, v in infos.items()}
         ctx.translated["traits"] = tr
         ctx.obligation("translator:Gen.v", "translator", True, "%d expressions, traits %s" % (len(infos), tr))
